@@ -33,13 +33,6 @@ from . import execsim, nodes
 SCHED: list = []  # the scheduler of the run in progress (global so that executor INSTRUCTIONS find it in any copy)
 
 
-class CtlByInstruction(execsim.CtlExecutor):
-    """what an executor instruction `(CtlByInstruction, (), {})` builds: a controllable executor of the current run"""
-
-    def __init__(self):
-        super().__init__(SCHED[0], "ctl")
-
-
 SUBMITS: list = []  # (which executor, whose job) in submission order, for every controllable executor below
 
 
@@ -54,6 +47,13 @@ class _Logged(execsim.CtlExecutor):
         owner = getattr(fn, "__self__", None)
         SUBMITS.append((self.tag, getattr(owner, "label", "?")))
         return super().submit(fn, *args, **kwargs)
+
+
+class CtlByInstruction(_Logged):
+    """what an executor instruction `(CtlByInstruction, (), {})` builds: a controllable executor of the current run"""
+
+    def __init__(self):
+        super().__init__("class:plain")
 
 
 class CtlNamed(_Logged):
